@@ -18,7 +18,10 @@ class Worker:
         sched.install_lock_seam()            # before selfies is imported
         self.sf = env.import_sut()           # imported, never called here
         sched.instrument()
-        self.oracle = procs.OracleClient(env.ORACLE_HASHSEEDS[0])
+        # C19 is silent about hash seeds: its oracle interpreter runs under the harness' own seed, so
+        # that a hash-seed dependence of the library (a C11 matter) cannot show up here as a
+        # difference between the instrumented alone-run and the uninstrumented oracle
+        self.oracle = procs.OracleClient(env.HARNESS_HASHSEED)
         self.alone = {}                      # (K, call) -> (result, steps)
 
     def alone_run(self, K, call, gran="instr"):
@@ -326,7 +329,7 @@ def run_one(base_seed, i, want_sample=False):
     }
     if i % 97 == 0:
         c = spec["threads"][0][0]
-        if tuple(procs.cold_query(spec["table"], c)[:2]) != tuple(alone[0][0][0]):
+        if tuple(procs.cold_query(spec["table"], c, env.HARNESS_HASHSEED)[:2]) != tuple(alone[0][0][0]):
             raise procs.HarnessError("cold interpreter disagrees with alone-run for %r" % (c,))
         summary["cold"] = 1
     if want_sample:
